@@ -112,7 +112,14 @@ func ParentMain(p *Property, tier string, seed int64, onlyPhase string) int {
 			ph.Post(pp)
 		}
 		phaseInfo[ph.Name] = map[string]interface{}{"cases": n, "evaluations": pp.Agg.Evaluations, "race_build": ph.Race}
+		// samples: at most two per phase, so that every phase is represented
+		perPhase := pp.Agg.Samples
+		if len(perPhase) > 2 && len(p.Phases) > 1 {
+			perPhase = perPhase[:2]
+		}
+		pp.Agg.Samples = nil
 		mergeResult(total, pp.Agg)
+		total.Samples = append(total.Samples, perPhase...)
 		inconclusive = append(inconclusive, pp.Inconcl...)
 	}
 
